@@ -237,6 +237,7 @@ def run(ctx):
     d10_checker_readonly(db, rep)
     d11_valid_index_accepted(db, rep)
     d12_const_name_kept(db, rep)
+    d13_declared_name_first(db, rep)
 
     # ---- D4: the synthetic name of an inline literal identifies the literal ----------------------------
     # orc_program_append_str_n finds operands BY NAME.  The name made up for an inline literal must therefore be an
@@ -618,4 +619,35 @@ def d12_const_name_kept(db, rep, rule="D12-CONST-NAME-KEPT"):
                   "orc_program_add_constant_str returns the slot of an equal constant (line %s) whatever name was asked for: a constant declared under a "
                   "second name is never recorded, and the instruction that uses that name is refused (`bad operand`), although the source is well-formed" % r.line,
                   line=r.line)
+
+
+
+
+def d13_declared_name_first(db, rep, rule="D13-DECLARED-NAME-FIRST"):
+    """D13: an operand that is the name of a declared variable denotes that variable - the construction API resolves operands by
+    name and knows no literals.  The parser recognises literals by what strtod() can start to read, which includes `inf`, `nan`,
+    `infinity` and every name beginning like them; the branch that turns an operand into a constant must therefore lie under a
+    must-fact that no variable of that name is declared (a failed by-name lookup)."""
+    tu = db.tu("orcparse")
+    f = tu.fn.get("orc_parse_handle_opcode")
+    if f is None:
+        raise AnalysisBroken("orc_parse_handle_opcode not found")
+    rep.saw(f)
+    fc = Facts(f)
+    calls = [c for c in f.calls("orc_program_add_constant_str")]
+    if not calls:
+        raise AnalysisBroken("orc_parse_handle_opcode: literal branch (orc_program_add_constant_str) not found")
+    for c in calls:
+        ok = False
+        for c_ in fc.conds(c):
+            if c_[0] == "switch":
+                continue
+            for y in c_[0].walk():
+                if y.k == "CallExpr" and (y.name or "") in ("orc_program_find_var_by_name",):
+                    ok = True
+        rep.check(ok, rule, where(f), "literal-branch@%s" % c.line,
+                  "an operand becomes a constant only where no declared variable has that name",
+                  "orc_parse_handle_opcode turns an operand into a literal constant without first looking it up among the declared variables: a variable "
+                  "named `inf`, `nan` or `infinity` is silently replaced by a float constant (`addf d1, inf, s2` adds +infinity), and one named `info` is "
+                  "refused as a bad constant, while the API-built program uses the variables", line=c.line)
 
